@@ -141,6 +141,23 @@ def fam_argv(seed, big):
             sc["setgid"] = g
         out.append(sc)
         i += 1
+    # the configuration used as a template: what is launched is a clone (PopenConfig::try_clone) and must be started
+    # exactly like the original -- every option set at once, and the identity cases again
+    tmpl = {"argv": vargv("one", "two"), "exe": hx(VCHILD), "env": [[hx("K"), hx("1")], [hx("K"), hx("2")], [hx("Z"), hx("")]],
+            "cwd": hx(os.path.join(SP, "cwd dir")), "setpgid": True, "stdin": "pipe", "stdout": "file:o", "stderr": "merge"}
+    out.append(dict(tmpl, id="a-clone%d" % i, **{"class": "argv-clone", "clone_cfg": True}))
+    i += 1
+    if ids_ok:
+        out.append(dict(tmpl, id="a-clone%d" % i, setuid=12345, setgid=23456, **{"class": "identity-clone", "clone_cfg": True}))
+        i += 1
+    for (u, g, pg) in itertools.product([None, 12345] if ids_ok else [None], [None, 23456] if ids_ok else [None], [False, True]):
+        sc = {"id": "a-idclone%d" % i, "class": "identity-clone", "argv": vargv(), "setpgid": pg, "clone_cfg": True}
+        if u is not None:
+            sc["setuid"] = u
+        if g is not None:
+            sc["setgid"] = g
+        out.append(sc)
+        i += 1
     # NUL anywhere: rejected, nothing started
     nul = [
         {"argv": vargv(b"a\0b")}, {"argv": [hx(VCHILD + "\0x")]}, {"argv": vargv(b"ok", b"\0")},
